@@ -183,6 +183,40 @@ impl Prop for C05 {
         out.push(Case { id: format!("{};n={}", cell, i), cell, input: json!({"stmts": stmts.iter().map(sj).collect::<Vec<_>>()}) });
       }
     }
+    // (2e) element kinds: a definition of every element kind in every definition form either defines exactly its name or fails and
+    // defines nothing; the follow-ups (assignment, op-assignment, a second definition of the name, an unrelated definition) see the
+    // name as the first statement left it. The kind dispatch of define / assign is one generated arm per kind.
+    let ekinds: [(&str, &str, &str, &str); 18] = [
+      ("u8", "2<u8>", "3<u8>", "7<u8>"), ("u16", "2<u16>", "3<u16>", "7<u16>"), ("u32", "2<u32>", "3<u32>", "7<u32>"), ("u64", "2<u64>", "3<u64>", "7<u64>"), ("u128", "2<u128>", "3<u128>", "7<u128>"),
+      ("i8", "2<i8>", "3<i8>", "7<i8>"), ("i16", "2<i16>", "3<i16>", "7<i16>"), ("i32", "2<i32>", "3<i32>", "7<i32>"), ("i64", "2<i64>", "3<i64>", "7<i64>"), ("i128", "2<i128>", "3<i128>", "7<i128>"),
+      ("f32", "2<f32>", "3<f32>", "7<f32>"), ("f64", "2.5", "3.5", "7.5"), ("bool", "true", "false", "true"), ("string", "\"ab\"", "\"cd\"", "\"ef\""),
+      ("r64", "1/2", "3/4", "5/7"), ("c64", "1+2i", "3+4i", "5+6i"), ("u8s", "2u8", "3u8", "7u8"), ("i128s", "2i128", "3i128", "7i128"),
+    ];
+    for (k, a, b, c) in ekinds.iter() {
+      let kind = k.trim_end_matches('s');
+      let arith = if *k == "bool" { format!("{} & {}", a, b) } else if *k == "string" { a.to_string() } else { format!("{} + {}", a, b) };
+      let forms: Vec<(&str, String)> = vec![
+        ("plain", format!("c := {}", a)), ("mut", format!("~c := {}", a)), ("annot", format!("c<{}> := {}", kind, a)), ("mut-annot", format!("~c<{}> := {}", kind, a)),
+        ("computed", format!("~c := {}", arith)), ("row", format!("c := [{} {}]", a, b)), ("mut-row", format!("~c := [{} {} {}]", a, b, c)), ("col", format!("~c := [{}; {}]", a, b)),
+        ("matrix", format!("~c := [{} {}; {} {}]", a, b, c, a)), ("set", format!("c := {{{}, {}}}", a, b)), ("tuple", format!("~c := ({}, {})", a, b)), ("record", format!("c := {{f: {}}}", a)),
+        ("option", format!("c<{}?> := {}", kind, a)),
+      ];
+      for (fname, def) in forms.iter() {
+        let stmts = vec![
+          Stmt { src: format!("a := {}", a), targets: vec!["a".into()], expect: "ok-or-err", what: "define".into() },
+          Stmt { src: "~w := 42".into(), targets: vec!["w".into()], expect: "ok-or-err", what: "define".into() },
+          Stmt { src: def.clone(), targets: vec!["c".into()], expect: "err-if-defined", what: format!("define-kind-{}", fname) },
+          Stmt { src: format!("c = {}", c), targets: vec!["c".into()], expect: "ok-or-err", what: "assign-after-define".into() },
+          Stmt { src: format!("c := {}", b), targets: vec!["c".into()], expect: "err-if-defined", what: "invalid-redefine-after-define".into() },
+          Stmt { src: format!("~c := {}", b), targets: vec!["c".into()], expect: "err-if-defined", what: "invalid-redefine-as-mutable-after-define".into() },
+          Stmt { src: format!("c += {}", b), targets: vec!["c".into()], expect: "ok-or-err", what: "opassign-after-define".into() },
+          Stmt { src: format!("a := {}", b), targets: vec!["a".into()], expect: "err-if-defined", what: "invalid-redefine".into() },
+          Stmt { src: format!("v := {}", c), targets: vec!["v".into()], expect: "ok-or-err", what: "define".into() },
+        ];
+        let cell = format!("ekind;kind={};form={}", k, fname);
+        out.push(Case { id: cell.clone(), cell, input: json!({"stmts": stmts.iter().map(sj).collect::<Vec<_>>()}) });
+      }
+    }
     // (2c) user functions whose body assigns to a parameter, called with a variable of exactly the declared kind: the caller's
     // variable is a bystander of the call statement whatever the call does
     let fns: [(&str, &str, &str, &str); 8] = [
@@ -344,6 +378,8 @@ impl Prop for C05 {
           tags.push(format!("err:{}:{}", what, kind));
         }
         Ev::Ok(_) => {
+          // a definition of a name that IS defined at this point (whatever the earlier statements did) must be rejected
+          if expect == "err-if-defined" && targets.iter().any(|t| model.contains_key(t)) { return Outcome::violated(&format!("accepted:{}", what.trim_start_matches("invalid-")), format!("{} succeeded although the name was defined; symbols now {}", ctx(), show_snapshot(&snap))); }
           if expect == "err" { return Outcome::violated(&format!("accepted:{}", what.trim_start_matches("invalid-")), format!("{} succeeded; symbols now {}", ctx(), show_snapshot(&snap))); }
           // every non-target name unchanged
           for (name, val) in model.iter() {
